@@ -33,6 +33,8 @@ class FakeFile:
         return item
 
     def write(self, data):
+        if getattr(self, "fail_writes", False):
+            raise BrokenPipeError("peer closed")
         return len(data)
 
     def flush(self):
@@ -86,15 +88,22 @@ def make_device(script, log):
     return d
 
 
-def run_script(stream, script):
-    """Returns (results, problems)."""
+def run_script(stream, script, write_fails_before=None):
+    """Returns (results, problems). write_fails_before = k: before the k-th readline() the host tries to write and the write
+    fails (the peer has closed its side): whatever was received must still be delivered."""
     log = []
     d = make_device(script, log)
     results = []
     nnone = sum(1 for x in script if x is None or isinstance(x, tuple))
     limit = len(script) + stream.count(b"\n") + 6
     eof_seen = False
-    for _ in range(limit):
+    for call in range(limit):
+        if write_fails_before is not None and call == write_fails_before:
+            d._socketfile.fail_writes = True
+            try:
+                d.write(b"M105\n")
+            except DEV.DeviceError:
+                pass
         r = d.readline()
         results.append(r)
         if r is DEV.READ_EOF:
@@ -216,6 +225,13 @@ def _work(item):
                 outcomes.add(digest(res))
                 for sig, msg in problems:
                     out.append((sig, msg, {"stream": list(stream), "script": enc(script)}))
+                if len(stream) <= 4 and script is not None and not any(x is None or isinstance(x, tuple) for x in script):
+                    # a failed write (the peer closed its side) before any of the readline calls: nothing received is lost
+                    for k in range(0, len(res)):
+                        res2, problems2 = run_script(stream, script, write_fails_before=k)
+                        n += 1
+                        for sig, msg in problems2:
+                            out.append((sig + ":after-failed-write", msg + f" (a write failed before readline #{k})", {"stream": list(stream), "script": enc(script), "write_fails_before": k}))
     else:
         name, stream, parts = payload
         for script in scripts_for(stream, parts, 1):
@@ -276,7 +292,7 @@ def run(tier, seed):
                  f"every byte string over {{a, LF, CR}} of length <= {crlen} containing a CR and over {{a, LF, CR, NUL, FF, FS, 0x85, 0xff}} of length <= {exlen} containing one of the last five ({ncr} streams; only LF ends a line) x every composition x <= 1 no-data-yet answer; plus "
                  f"{len(longs)} long-stream fragmentations (8 streams up to 513 bytes x cyclic chunk-size patterns over {{1,2,100,255,256}}, "
                  "<= 1 'no data yet'); each script is run through the real Device (socket flavour, connect() with socket/selectors "
-                 "substituted) calling readline() until READ_EOF; distinct = distinct result sequences"),
+                 "substituted) calling readline() until READ_EOF; for streams of <= 4 bytes additionally a failing write injected before each readline call; distinct = distinct result sequences"),
         "exhaustive": True,
         "exhaustive_note": "the stated script space is enumerated completely; streams outside it are not covered",
         "samples": [{"stream": "a\\na", "script": [[97], ["none", True], [10, 97]], "results": ["a\\n", "a", None]}],
@@ -289,5 +305,5 @@ def run(tier, seed):
 
 def replay(body):
     rp = body["replay"]
-    results, problems = run_script(bytes(rp["stream"]), dec(rp["script"]))
+    results, problems = run_script(bytes(rp["stream"]), dec(rp["script"]), rp.get("write_fails_before"))
     return {"results": [r if r is None else r.decode("latin1") for r in results], "violations": problems}
